@@ -646,11 +646,54 @@ theorem validator_detects_short_timeline (tsbdUs : Int) (ts : Nat) (entries : Li
 
 /-! ## 7. across a manifest refresh -/
 
-/-- **availabilityStartTime changed on a later manifest** -/
+/-- **availabilityStartTime changed on a later manifest** – for *every* refreshed manifest: with
+or without MPD@minimumUpdatePeriod (`r.mup` is an arbitrary `Option`), whatever MPD@id and
+publishTime did.  validator.py:246-248 sits outside the `minimumUpdatePeriod is not None` guard,
+which only protects the age check `3 * minimumUpdatePeriod`. -/
 theorem validator_detects_ast_change (r : Refresh) (h : r.prevAst ≠ r.ast) :
     RefreshErr.availabilityStartTime ∈ refreshErrors r := by
   unfold refreshErrors
   simp [h]
+
+/-- the same spelled out for a manifest that announces no updates (`mup = none`, the server
+option `mup=-1` and `manifest_ef.mpd`): the error list is exactly the AST error -/
+theorem validator_detects_ast_change_without_update_period (prevAst ast : Option Int)
+    (prevPublish publish : Int) (h : prevAst ≠ ast) :
+    refreshErrors { idEqual := true, prevAst := prevAst, ast := ast, prevPublish := prevPublish,
+                    publish := publish, mup := none } = [RefreshErr.availabilityStartTime] := by
+  unfold refreshErrors
+  simp [h]
+
+/-- **MPD@id changed on a later manifest** (validator.py:242-245, clause 5.4.1) – again for every
+`mup` -/
+theorem validator_detects_mpd_id_change (r : Refresh) (h : r.idEqual = false) :
+    RefreshErr.mpdId ∈ refreshErrors r := by
+  unfold refreshErrors
+  simp [h]
+
+/-- a manifest without MPD@minimumUpdatePeriod is never `stale`, and two versions of it with the
+same id and availabilityStartTime are accepted whatever their publishTimes are (the validator
+reloads it after `DEFAULT_UPDATE_PERIOD`, validator.py:314-317) -/
+theorem validator_accepts_refresh_without_update_period (ast : Option Int) (prevPublish publish : Int) :
+    refreshErrors { idEqual := true, prevAst := ast, ast := ast, prevPublish := prevPublish,
+                    publish := publish, mup := none } = [] := by
+  unfold refreshErrors
+  simp
+
+/-- the refresh checks are independent of each other: the error list is the concatenation of
+the three separate verdicts, so no check can be masked by the outcome (or absence) of another -/
+theorem refreshErrors_independent (r : Refresh) :
+    (RefreshErr.mpdId ∈ refreshErrors r ↔ r.idEqual = false) ∧
+    (RefreshErr.availabilityStartTime ∈ refreshErrors r ↔ r.prevAst ≠ r.ast) ∧
+    (RefreshErr.stale ∈ refreshErrors r ↔ ∃ m, r.mup = some m ∧ 3 * m ≤ r.publish - r.prevPublish) := by
+  unfold refreshErrors
+  refine ⟨?_, ?_, ?_⟩
+  · cases hi : r.idEqual <;> cases hm : r.mup <;> by_cases ha : r.prevAst = r.ast <;> simp [ha] <;>
+      split <;> simp
+  · cases hi : r.idEqual <;> cases hm : r.mup <;> by_cases ha : r.prevAst = r.ast <;> simp [ha] <;>
+      split <;> simp
+  · cases hi : r.idEqual <;> cases hm : r.mup <;> by_cases ha : r.prevAst = r.ast <;> simp [ha] <;>
+      omega
 
 open DashLive.LiveTiming in
 /-- **two manifests of the server are accepted as successive versions**: same stream
@@ -810,6 +853,11 @@ def exRefresh (ast publish : Int) : Refresh :=
 example : refreshErrors (exRefresh 1000000 8000000) = [RefreshErr.availabilityStartTime] := by decide
 example : refreshErrors (exRefresh 0 24000000) = [RefreshErr.stale] := by decide
 example : refreshErrors (exRefresh 0 23999999) = [] := by decide
+/-- no MPD@minimumUpdatePeriod: AST two seconds later is reported, an old publishTime is not `stale` -/
+example : refreshErrors { exRefresh 2000000 90000000 with mup := none }
+    = [RefreshErr.availabilityStartTime] := by decide
+example : refreshErrors { exRefresh 0 90000000 with mup := none, idEqual := false }
+    = [RefreshErr.mpdId] := by decide
 
 open DashLive.LiveTiming in
 /-- non-vacuity of `validator_accepts_refresh_partial`: `start=year`, default update period of
